@@ -265,7 +265,12 @@ func mergeConfigs(ctx context.Context, src Config, dest *Config) {
 		if srcFieldValue.Kind() == reflect.Map {
 			srcMap, ok := srcFieldValue.Interface().(map[string]any)
 			if !ok {
-				log.Debug().Msg("field value is not `any`, skipping merge")
+				// Maps of any other type (e.g. replace-type) are not merged
+				// key by key, but are still inherited as a whole when the
+				// more specific level doesn't set them.
+				if destFieldValue.CanSet() && destFieldValue.IsZero() {
+					destFieldValue.Set(srcFieldValue)
+				}
 				continue
 			}
 			destMap, ok := destFieldValue.Interface().(map[string]any)
